@@ -1025,6 +1025,59 @@ fn flags_tests(t: &mut T) {
     t.rep.class("rflags|id-flag");
 }
 
+/// The wrappers whose asm uses the stack (`push`/`pop` around popfq, pushfq, the far return of CS::set_reg) must not
+/// write below the caller's stack pointer: small leaf functions keep N words of live data in their frame (on this target
+/// possibly in the red zone), call the wrapper in the middle, and sum the data up again.
+macro_rules! leaf_with_locals {
+    ($name:ident, $n:expr, |$aux:ident| $body:expr) => {
+        #[inline(never)]
+        fn $name(seed: u64, $aux: u64) -> u64 {
+            let _ = $aux;
+            let mut table = [0u64; $n];
+            for (i, slot) in table.iter_mut().enumerate() {
+                unsafe { core::ptr::write_volatile(slot, seed.wrapping_mul(i as u64 + 1)) };
+            }
+            $body;
+            let mut sum = 0u64;
+            for slot in table.iter() {
+                sum = sum.wrapping_add(unsafe { core::ptr::read_volatile(slot) });
+            }
+            sum
+        }
+    };
+}
+leaf_with_locals!(leaf_wr_1, 1, |aux| unsafe { rflags::write_raw(aux) });
+leaf_with_locals!(leaf_wr_2, 2, |aux| unsafe { rflags::write_raw(aux) });
+leaf_with_locals!(leaf_wr_4, 4, |aux| unsafe { rflags::write_raw(aux) });
+leaf_with_locals!(leaf_wr_9, 9, |aux| unsafe { rflags::write_raw(aux) });
+leaf_with_locals!(leaf_w_3, 3, |aux| unsafe { rflags::write(RFlags::from_bits_truncate(aux)) });
+leaf_with_locals!(leaf_w_8, 8, |aux| unsafe { rflags::write(RFlags::from_bits_truncate(aux)) });
+leaf_with_locals!(leaf_cs_1, 1, |aux| unsafe { CS::set_reg(CS::get_reg()) });
+leaf_with_locals!(leaf_cs_2, 2, |aux| unsafe { CS::set_reg(CS::get_reg()) });
+leaf_with_locals!(leaf_cs_4, 4, |aux| unsafe { CS::set_reg(CS::get_reg()) });
+leaf_with_locals!(leaf_cs_8, 8, |aux| unsafe { CS::set_reg(CS::get_reg()) });
+leaf_with_locals!(leaf_cs_16, 16, |aux| unsafe { CS::set_reg(CS::get_reg()) });
+
+fn callers_locals(t: &mut T) {
+    let fns: [(&str, usize, fn(u64, u64) -> u64); 11] = [
+        ("rflags::write_raw", 1, leaf_wr_1), ("rflags::write_raw", 2, leaf_wr_2), ("rflags::write_raw", 4, leaf_wr_4), ("rflags::write_raw", 9, leaf_wr_9),
+        ("rflags::write", 3, leaf_w_3), ("rflags::write", 8, leaf_w_8),
+        ("CS::set_reg", 1, leaf_cs_1), ("CS::set_reg", 2, leaf_cs_2), ("CS::set_reg", 4, leaf_cs_4), ("CS::set_reg", 8, leaf_cs_8), ("CS::set_reg", 16, leaf_cs_16),
+    ];
+    // executed natively: writing back the flags just read and reloading the current code segment are legal in user mode
+    for (what, n, f) in fns {
+        t.rep.eval();
+        let seed = core::hint::black_box(t.r.next());
+        let cur = rflags::read_raw();
+        let sum = f(seed, cur);
+        let exp = (1..=n as u64).fold(0u64, |a, i| a.wrapping_add(seed.wrapping_mul(i)));
+        if sum != exp {
+            t.rep.violation(&format!("{}|clobbers-its-callers-stack-locals", what), J::obj(vec![("profile", J::s(crate::util::profile_name())), ("words_of_live_data", J::U(n as u64)), ("expected_sum", J::hex(exp)), ("got", J::hex(sum))]));
+        }
+        t.rep.class(&format!("callers-locals|{}|{}-words", what, n));
+    }
+}
+
 pub fn run(a: &Args, rep: &mut Report) {
     trapemu::install();
     let r = Rng::derive(a.seed, "c16", a.shard);
@@ -1037,6 +1090,9 @@ pub fn run(a: &Args, rep: &mut Report) {
         xcr0_tests(&mut t);
         msr_tests(&mut t);
         seg_tests(&mut t);
+        if i % 1024 == 0 {
+            callers_locals(&mut t);
+        }
         if i % 16 == 0 {
             flags_tests(&mut t);
             flags_step_tests(&mut t);
